@@ -3,6 +3,7 @@
 package liteclient
 
 import (
+	"crypto/sha256"
 	"net"
 	"time"
 
@@ -67,4 +68,34 @@ func VH_C11_handshake_consumes(extra int) {
 	zzvrt.Assert("request-carries-our-public-key", same)
 	zzvrt.Cover("reached", err == nil)
 	zzvrt.ObserveInt("consumed", conn.consumed)
+}
+
+// Session parameter layout (ADNL TCP): 160 random bytes = rx key (32) | tx key (32) | rx nonce (16) |
+// tx nonce (16) | padding (64); the accessors return exactly those byte ranges, and hash() is the
+// SHA-256 of all 160 bytes.
+func VH_C11_params_layout() {
+	var p params
+	for i := 0; i < len(p); i++ {
+		p[i] = zzvrt.NondetByte("params")
+	}
+	eq := func(got []byte, from, to int) bool {
+		ok := len(got) == to-from
+		for i := 0; i < len(got) && from+i < to; i++ {
+			ok = zzvrt.And(ok, got[i] == p[from+i])
+		}
+		return ok
+	}
+	zzvrt.Assert("rx-key", eq(p.rxKey(), 0, 32))
+	zzvrt.Assert("tx-key", eq(p.txKey(), 32, 64))
+	zzvrt.Assert("rx-nonce", eq(p.rxNonce(), 64, 80))
+	zzvrt.Assert("tx-nonce", eq(p.txNonce(), 80, 96))
+	zzvrt.Assert("padding", eq(p.padding(), 96, 160))
+	want := sha256.Sum256(p[:])
+	got := p.hash()
+	same := len(got) == 32
+	for i := 0; i < 32 && i < len(got); i++ {
+		same = zzvrt.And(same, got[i] == want[i])
+	}
+	zzvrt.Assert("hash-of-all-160-bytes", same)
+	zzvrt.Cover("reached", true)
 }
